@@ -1,7 +1,7 @@
 SPECIFICATION GSpec
 CONSTANTS
- FewerIsMismatch = FALSE
- NilCreatedSafe = FALSE
+ FewerIsMismatch = TRUE
+ NilCreatedSafe = TRUE
  NilPlatformSafe = FALSE
  Mut = ""
  Level = 1
